@@ -136,6 +136,8 @@ def case_random(run, i):
     rng = run.rng("random", i)
     ploidy = int(rng.integers(1, 7))
     purity = [None, 1.0, float(rng.uniform(0.001, 1.0)), float(rng.choice([0.01, 0.05, 0.5, 0.999]))][int(rng.integers(0, 4))]
+    if i % 16 == 5:
+        purity = float(rng.choice([1e-4, 1e-6, 1e-9, 1e-10, 1e-12]))      # "all purities in (0,1]": the estimate (r*2^log2 - (1-p)*x)/p grows like 1/p
     chrpre = str(rng.choice(["chr", ""]))
     par = [None, "grch37", "grch38"][int(rng.integers(0, 3))]
     n = int(rng.integers(1, 40))
